@@ -6,20 +6,20 @@
                             p, r, s, e   the classes of its parameters, random variables, statements and
                                          execution steps (pharmpy's own == on the components)
                             d  the class of its dataset (values, dtypes, columns, index)
-   What is NOT content: the label (name, description, dataset path), the process, PYTHONHASHSEED and the
-   history (the order of operations by which the object was built).
+   What is NOT content: the label (name, description, dataset path), the process, PYTHONHASHSEED, the interpreter
+   configuration (pharmpy.conf of the site / user) and the history (the order of operations by which the object was built).
 
    State:  key   partial function  m -> digest  (the database key observed for that content)
            seen  the observations [m, p, r, s, e, d, label, proc, seed, hist, k] (first one per content, label and digest)
            trips round trips observed [via, cin, cout]
    Actions:
-     Key(proc, seed, hist, label, sigma, k)   a process computed the content hash k of a model of content
+     Key(proc, seed, conf, hist, label, sigma, k)   a process (hash seed seed, configuration conf) computed the content hash k of a model of content
                                               sigma that was built by history hist and carries label
      RoundTrip(via, cin, cout)                an object of class cin was serialised (to_dict / JSON text /
                                               generic model code / results JSON) and read back as an object of
                                               class cout  (0: reading back failed)
    Properties (over the observations, so that they can be evaluated on real traces):
-     Functional    same m  => same k            -- across processes, hash seeds, histories AND labels
+     Functional    same m  => same k            -- across processes, hash seeds, configurations, histories AND labels
      Independent   (the part of Functional that concerns labels, stated separately)
      Injective     sigma, sigma' differ in p, r, s, e or d  => k # k'
      TripsEqual    cout = cin
@@ -30,12 +30,13 @@
      "order"  the dictionary form enumerates a graph / set in construction order   -> Functional fails
      "seed"   ... in hash order                                                     -> Functional fails
      "name"   the name is not blanked                                               -> Independent fails
+     "conf"   the dictionary form omits a field when it equals the CONFIGURED default    -> Functional fails
      "drop"   to_dict drops a field (here: the execution steps)                     -> Injective fails
      "trip"   from_dict(to_dict(x)) loses a field                                   -> TripsEqual fails   *)
 EXTENDS Naturals, Sequences, FiniteSets, TLC
 
 CONSTANTS Sigmas,    \* the contents that can be built: set of records [m, p, r, s, e, d]
-          Labels, Procs, Seeds, Hists,
+          Labels, Procs, Seeds, Confs, Hists,
           Vias,      \* "dict", "json", "code", "results"
           MaxObs, MaxTrips,
           Fault
@@ -51,7 +52,7 @@ Listed(a, b) == a.p # b.p \/ a.r # b.r \/ a.s # b.s \/ a.e # b.e \/ a.d # b.d
 FunctionalG(sigma, k) == sigma.m \in DOMAIN key => key[sigma.m] = k
 InjectiveG(sigma, k) == \A o \in seen : Listed(o, sigma) => o.k # k
 
-Key(proc, seed, hist, label, sigma, k) ==
+Key(proc, seed, conf, hist, label, sigma, k) ==
     /\ Cardinality(seen) < MaxObs
     \* the first observation of every (content, label-or-not, digest) combination is kept (later identical ones add nothing
     \* to the invariants; this keeps the state small when thousands of real observations are validated)
@@ -59,7 +60,7 @@ Key(proc, seed, hist, label, sigma, k) ==
                                    /\ o.k = k /\ o.label = label
                THEN seen
                ELSE seen \cup {[m |-> sigma.m, p |-> sigma.p, r |-> sigma.r, s |-> sigma.s, e |-> sigma.e, d |-> sigma.d,
-                                label |-> label, proc |-> proc, seed |-> seed, hist |-> hist, k |-> k]}
+                                label |-> label, proc |-> proc, seed |-> seed, conf |-> conf, hist |-> hist, k |-> k]}
     /\ key' = IF sigma.m \in DOMAIN key THEN key ELSE [x \in DOMAIN key \cup {sigma.m} |-> IF x = sigma.m THEN k ELSE key[x]]
     /\ UNCHANGED trips
 
@@ -69,8 +70,9 @@ RoundTrip(via, cin, cout) ==
     /\ UNCHANGED <<key, seen>>
 
 \* ----- reference model of the implementation
-Digest(sigma, label, seed, hist) ==
+Digest(sigma, label, seed, conf, hist) ==
     CASE Fault = "order" -> <<sigma, hist>>
+      [] Fault = "conf" -> <<sigma, conf>>
       [] Fault = "seed" -> <<sigma, seed>>
       [] Fault = "name" -> <<sigma, label>>
       [] Fault = "drop" -> [sigma EXCEPT !.e = 0, !.m = 0]
@@ -78,8 +80,8 @@ Digest(sigma, label, seed, hist) ==
 Back(via, c) == IF Fault = "trip" /\ via = "code" THEN 0 ELSE c
 Classes == {x.m : x \in Sigmas}
 
-DoKey == \E proc \in Procs, seed \in Seeds, hist \in Hists, label \in Labels, sigma \in Sigmas :
-            Key(proc, seed, hist, label, sigma, Digest(sigma, label, seed, hist))
+DoKey == \E proc \in Procs, seed \in Seeds, conf \in Confs, hist \in Hists, label \in Labels, sigma \in Sigmas :
+            Key(proc, seed, conf, hist, label, sigma, Digest(sigma, label, seed, conf, hist))
 DoRoundTrip == \E via \in Vias, c \in Classes : RoundTrip(via, c, Back(via, c))
 Next == DoKey \/ DoRoundTrip
 Spec == Init /\ [][Next]_vars
